@@ -127,6 +127,15 @@ def install():
 def plan(tier, rng, sl, nslices, stats):
     cfg = TIERS[tier]
     for i in range(cfg["random"]):
+        if i % 60 == 31:
+            # an ordinary-sized operand (ten to fourteen states) against a small one, in both positions; the rational
+            # operations (which go through to_regex) are left to the small cases
+            a = gfa.large_case(rng, vcs=("int", "str"))
+            a["token"] = False
+            b = gfa.random_case(rng, max_states=4, max_syms=2, vcs=[a["vc"]], token=True)
+            b["token"] = False
+            yield {"a": a, "b": b, "token": False} if i % 120 == 31 else {"a": b, "b": a, "token": False}
+            continue
         token = rng.random() < 0.4
         vcs = ["int", "str", "merged"] if token else None
         if token and rng.random() < 0.25:
